@@ -22,8 +22,9 @@ Next == /\ l < Len(Traces[tid])
         /\ LET ln == Traces[tid][l + 1]
                o2 == IF "s" \in DOMAIN ln THEN ln.s ELSE o
                g2 == Upd(g, o, ln, o2)
-               b  == Bad(g, o, ln, o2, g2)
-               nb == bad \cup { <<n, ln.i>> : n \in { m \in b : ~\E e \in bad : e[1] = m } }
+               b  == BadKF(g, o, ln, o2, g2)
+               \* first occurrence of every (clause, finding) pair
+               nb == bad \cup { <<e[1], ln.i, e[2]>> : e \in { m \in b : ~\E e \in bad : e[1] = m[1] /\ e[3] = m[2] } }
            IN /\ l' = l + 1 /\ o' = o2 /\ g' = g2 /\ bad' = nb /\ tid' = tid
               /\ (l + 1 = Len(Traces[tid]) => PrintT(<<"VERDICT", tid, l + 1, nb>>))
 
